@@ -152,6 +152,7 @@ func (se *subscriptionEntry) Close() {
 
 func (se *subscriptionEntry) Listen(conn net.Conn) {
 	simhook.Start(se.listenTok)
+	simhook.SelectLoop()
 	defer simhook.Exit()
 	defer func() {
 		simhook.YieldOn("sub.listen.defer", se.respCh)
